@@ -280,3 +280,20 @@ Example index_entries_exact_demo : exists x tb, alookup nIX (s_sidx s_demo) = So
   alookup (qual public (si_table x)) (s_tabs s_demo) = Some tb /\
   dget [Some 20] (si_data x) = [1%nat] /\ matching_positions (t_schema tb) (si_cols x) [Some 20] (t_rows tb) 0 = [1%nat].
 Proof. eexists. eexists. repeat split; vm_compute; reflexivity. Qed.
+
+(** CREATE UNIQUE INDEX over rows that already hold a duplicate key is refused and takes its catalog
+    entry back (as of 3e485d50); keys with a NULL do not count *)
+Example create_unique_index_over_duplicates :
+  let s := run [mkT0; Insert nT0 [[1; 10]; [2; 10]]] init in
+  step s (CreateIndex nIX nT0 true [nB] false) = (s, RErr) /\
+  is_ok (snd (step s (CreateIndex nIX nT0 true [nA] false))) = true.
+Proof. cbn zeta. split; vm_compute; reflexivity. Qed.
+
+(** INSERT's phase 5 probes the unique indexes of every table whose name matches up to case: a key
+    held by the unique index of "t0" refuses a row for the (empty) table T0 *)
+Example twin_table_unique_index_refuses_insert :
+  let s := run [CreateTable nT1 [colA; colB] None; Insert nT1 [[1; 10]]; RenameTable nT1 nt0;
+                CreateIndex nIX nt0 true [nB] false; mkT0] init in
+  obs_select s nT0 = Some [] /\
+  snd (step s (Insert nT0 [[2; 10]])) = RErr /\ snd (step s (Insert nT0 [[2; 11]])) = ROk 1.
+Proof. cbn zeta. repeat split; vm_compute; reflexivity. Qed.
